@@ -582,7 +582,7 @@ func runC02(c *Ctx) {
 	}
 	results := make([]res, nDocs)
 	cur := make([]string, nw)
-	c.watchdog(300*time.Second, "specdoc-hang", func() interface{} { return map[string]interface{}{"in-progress": append([]string{}, cur...)} }, func() {
+	c.watchdog(600*time.Second+time.Duration(nDocs/100)*time.Second, "specdoc-hang", func() interface{} { return map[string]interface{}{"in-progress": append([]string{}, cur...)} }, func() {
 		var wg sync.WaitGroup
 		for w := 0; w < nw; w++ {
 			wg.Add(1)
@@ -680,7 +680,7 @@ func runC02(c *Ctx) {
 	codeSpanCases(c, nli)
 	codeBlockCases(c, nli)
 	var curS string
-	c.watchdog(120*time.Second, "spec-rewrite-hang", func() interface{} { return map[string]string{"markdown": curS} }, func() { specRewrites(c, mds[0], &curS) })
+	c.watchdog(900*time.Second, "spec-rewrite-hang", func() interface{} { return map[string]string{"markdown": curS} }, func() { specRewrites(c, mds[0], &curS) })
 }
 
 // stripContainers removes every leading run of blanks, block-quote markers and list markers;
